@@ -2,6 +2,7 @@ package rules
 
 import (
 	"go/token"
+	"strings"
 
 	"golang.org/x/tools/go/ssa"
 
@@ -52,6 +53,7 @@ func runC03(ctx *core.Ctx) {
 	inputReadOnly(ctx, "RO", []*ssa.Function{parse, parseFile})
 	scanFromCandidate(ctx, "SCAN")
 	parseFileRaw(ctx, "RAW")
+	markerLineExact(ctx, "LINE")
 	ctx.Rule("FWD", "Format is the reference implementation: the package's Format does nothing but call golang.org/x/tools/txtar.Format on its argument and return the result", 1)
 	if fm := ctx.Need("FWD", "txtar", "Format"); fm != nil {
 		g := graph(ctx.P, fm)
@@ -501,5 +503,34 @@ func parseFileRaw(ctx *core.Ctx, rule string) {
 	}
 	if n == 0 {
 		ctx.Bad(rule, "txtar.ParseFile#raw", pf.Pos(), "ParseFile does not call Parse")
+	}
+}
+
+// markerLineExact: in the marker test the only thing removed from the line
+// before the closing delimiter is looked for is one trailing carriage return.
+func markerLineExact(ctx *core.Ctx, rule string) {
+	p := ctx.P
+	ctx.Rule(rule, "marker lines are matched exactly: the value whose suffix is compared with the closing delimiter derives from the line by re-slicing only - no Trim/TrimRight/TrimSpace call in between; trailing blanks make a line an ordinary line (Format never writes them, the reference parser does not accept them), and only one '\\r' before the newline is dropped", 1)
+	parse := ctx.Need(rule, "txtar", "Parse")
+	if parse == nil {
+		return
+	}
+	n := 0
+	for _, f := range reachableMod(p, []*ssa.Function{parse}, nil) {
+		g := graph(p, f)
+		for _, c := range g.Calls("bytes.HasSuffix", "strings.HasSuffix") {
+			if len(c.Call.Args) != 2 {
+				continue
+			}
+			n++
+			trimmed := ssax.DerivedFrom(c.Call.Args[0], func(v ssa.Value) bool {
+				tc, ok := v.(*ssa.Call)
+				return ok && (strings.HasPrefix(ssax.CalleeName(&tc.Call), "bytes.Trim") || strings.HasPrefix(ssax.CalleeName(&tc.Call), "strings.Trim"))
+			}, nil)
+			ctx.Check(!trimmed, rule, shortFn(f)+"#suffix-test"+itoa(n), c.Pos(), "the closing delimiter is looked for at the end of the line as written (minus one CR), not of a trimmed copy")
+		}
+	}
+	if n == 0 {
+		ctx.Unknown(rule, "txtar#suffix-test", token.NoPos, "no closing-delimiter test found in the parser")
 	}
 }
